@@ -242,10 +242,56 @@ Qed.
 
 Definition I2 (c : cfg) (s : st) : Prop := consume s = true -> can_consume c s = true.
 
+(* ---- lists of producers *)
+Lemma nth_tl (los : list (option Z)) i : nth (S i) los None = nth i (tl los) None.
+Proof. destruct los; [destruct i|]; reflexivity. Qed.
+
+(* output, once written, stays: canConsume's condition is monotone under a producer's write *)
+Lemma can_consume_l_set ps : forall los i t,
+  can_consume_l ps los = true -> can_consume_l ps (set_nth i (Some t) los) = true.
+Proof.
+  induction ps as [|p ps IH]; intros los i t H; cbn in *; auto.
+  apply andb_true_iff in H. destruct H as [H1 H2].
+  destruct los as [|x r]; cbn in *.
+  - rewrite H1, H2. reflexivity.
+  - destruct i; cbn.
+    + rewrite H2, orb_true_r. reflexivity.
+    + rewrite H1. cbn. apply IH, H2.
+Qed.
+
+Lemma can_consume_l_nth ps : forall los i p,
+  can_consume_l ps los = true -> nth_error ps i = Some p -> p_same p = true -> exists l, lo_of los i = Some l.
+Proof.
+  unfold lo_of.
+  induction ps as [|p0 ps IH]; intros los i p H Hn Hs; destruct i; cbn in Hn; try discriminate.
+  - injection Hn as ->. cbn in H. apply andb_true_iff in H. destruct H as [H _]. rewrite Hs in H. cbn in H.
+    destruct los as [|[l|] r]; cbn in *; try discriminate. eauto.
+  - cbn in H. apply andb_true_iff in H. destruct H as [_ H]. rewrite nth_tl. eapply IH; eauto.
+Qed.
+
+(* producersHaveOutputSinceDate(d) false: every producer is repeating and none has output newer than d *)
+Lemma newout_l_false ps : forall los d, newout_l ps los d = false ->
+  forall i p l, nth_error ps i = Some p -> lo_of los i = Some l -> p_rep p = true /\ l <= d.
+Proof.
+  unfold lo_of.
+  induction ps as [|p0 ps IH]; intros los d H i p l Hn Hl; destruct i; cbn in Hn; try discriminate.
+  - injection Hn as ->. cbn in H. apply orb_false_iff in H. destruct H as [H _]. apply orb_false_iff in H.
+    destruct H as [Hr H]. destruct los as [|x r]; cbn in *; [discriminate|]. subst x. split; [destruct (p_rep p); auto|lia].
+  - cbn in H. apply orb_false_iff in H. destruct H as [_ H]. rewrite nth_tl in Hl. eapply IH; eauto.
+Qed.
+
+Lemma nth_set_nth (l : list (option Z)) : forall i j v, nth j (set_nth i v l) None = v \/ nth j (set_nth i v l) None = nth j l None.
+Proof.
+  induction l as [|x r IH]; intros i j v; cbn; auto.
+  destruct i; cbn.
+  - destruct j; cbn; auto.
+  - destruct j; cbn; auto.
+Qed.
+
 Lemma I2_step c s e : I2 c s -> I2 c (step c s e).
 Proof.
   unfold I2. intros H. destruct e; cbn; auto.
-  - intros _. unfold can_consume; cbn. rewrite !orb_true_r. reflexivity.
+  - intros Hc. unfold can_consume; cbn. apply can_consume_l_set, H, Hc.
   - unfold suicide_ev, set_flags. destruct (armed s); cbn; auto.
   - intros Hc. rewrite (can_consume_lo c _ s (lo_poll c s o)).
     destruct (poll_consume c s o Hc); auto.
